@@ -2,7 +2,7 @@
 import itertools, random
 import numpy as np, torch
 import core
-from core import PT, gen_tensor, gen_shape, tn
+from core import PT, gen_tensor, gen_shape, tn, safe, close
 from props._b_common import Judge, to_np, cmp, absdense, pick_dd, count_formats
 
 RULE = ("cases from one PRNG(seed): kind in dot|norm|dist|sum|wmean|var|moment; tensors are WFstd hybrids (per mode TT|CP x factor "
@@ -479,3 +479,85 @@ def run_moment(ctx, case, J):
                     lambda k=k: tn.normalized_moment(t.to_tn(), k, **kw()), rel(exp, scale), feats)
     else:
         ctx.count("skipped:normalized_moment-constant")
+
+
+# =============================================================================== correspondence with the Lean model (main session)
+def _corr_cases(rng, tier):
+    n = {"quick": 160, "thorough": 3000, "search": 0}[tier]
+    out = []
+    for _ in range(n):
+        N = rng.choice([1, 2, 2, 3, 3, 4])
+        stream = "int" if rng.random() < 0.7 else "float"
+        shape = [1 if rng.random() < 0.15 else rng.randint(2, 4) for _ in range(N)]
+        op = rng.choice(["dot", "normsq", "sumkeep", "sum"])
+        c = {"kind": "corr", "op": op, "t": gen_tensor(rng, shape, stream=stream).to_json(), "stream": stream, "dd": "float64"}
+        if op == "dot":
+            c["u"] = gen_tensor(rng, shape, stream=stream).to_json()
+        if op in ("sumkeep", "sum"):
+            bits = [rng.randint(0, 1) for _ in range(N)]
+            if not any(bits):
+                bits[rng.randrange(N)] = 1
+            c["bits"] = bits
+        out.append(c)
+    return out
+
+
+_orig_cases = cases
+
+
+def cases(rng, tier):  # noqa: F811
+    return _orig_cases(rng, tier) + _corr_cases(rng, tier)
+
+
+def run_corr(ctx, case, J):
+    from core import parse_tensor, cmp_struct, from_tn, unq
+    t = PT.from_json(case["t"])
+    op = case["op"]
+    exact = case["stream"] == "int"
+    ctx.case(("corr", op, t.sig(), tuple(case.get("bits", []))), t.nontrivial(), {"op": "model correspondence: " + op, "t": t.describe(), "bits": case.get("bits")})
+    ctx.count("corr:" + op)
+    if not (getattr(ctx, "use_model", False) and not getattr(ctx, "search_only", False)):
+        return
+    x = t.dense()
+    drv = ctx.drv()
+    if op in ("dot", "normsq"):
+        u = PT.from_json(case["u"]) if op == "dot" else t
+        r = safe(lambda: float(tn.dot(t.to_tn(), u.to_tn())) if op == "dot" else float(tn.normsq(t.to_tn())))
+        if r[0] == "err":
+            ctx.oracle("%s raised %s: %s" % (op, r[1], r[2]), case); return
+        toks = drv.call("dot " + t.ser() + " " + u.ser())
+        mv = float(unq(toks[2]))
+        spec = float(np.sum(x * u.dense()))
+        if not close(np.asarray(mv), np.asarray(spec), 1e-9)[0]:
+            ctx.spec("model dot %r differs from the dense inner product %r" % (mv, spec), case)
+        if (exact and mv != r[1]) or not close(np.asarray(mv), np.asarray(r[1]), 1e-9)[0]:
+            ctx.corr("%s: implementation %r differs from model %r" % (op, r[1], mv), case)
+        return
+    bits = case["bits"]
+    dims = [i for i, b in enumerate(bits) if b]
+    keep = op == "sumkeep"
+    r = safe(lambda: tn.sum(t.to_tn(), dim=dims, keepdim=keep))
+    if r[0] == "err":
+        ctx.oracle("sum(dim=%s, keepdim=%s) raised %s: %s" % (dims, keep, r[1], r[2]), case); return
+    toks = drv.call("%s %d %s %s" % (op, len(bits), " ".join(map(str, bits)), t.ser()))
+    exp = x.sum(axis=tuple(dims), keepdims=keep)
+    if toks[0] != "ok":
+        ctx.corr("model %s failed: %s" % (op, " ".join(toks[:4])), case); return
+    if toks[1] == "S":
+        mv = float(unq(toks[2]))
+        if isinstance(r[1], tn.Tensor):
+            ctx.corr("sum: model returns a scalar, implementation a tensor", case); return
+        if not close(np.asarray(mv), np.asarray(float(exp)), 1e-9)[0]:
+            ctx.spec("model sum %r differs from dense sum %r" % (mv, float(exp)), case)
+        if (exact and mv != float(r[1])) or not close(np.asarray(mv), np.asarray(float(r[1])), 1e-9)[0]:
+            ctx.corr("sum: implementation %r differs from model %r" % (float(r[1]), mv), case)
+        return
+    m = parse_tensor(toks, 1)[0]
+    if not isinstance(r[1], tn.Tensor):
+        ctx.corr("sum: model returns a tensor, implementation a scalar", case); return
+    d = cmp_struct(from_tn(r[1]), m, exact)
+    if d is not None:
+        ctx.corr("%s(dims=%s): implementation cores differ from model cores: %s" % (op, dims, d), case)
+    md = PT([np.asarray(c, dtype=np.float64) for c in m.cores], [None if U is None else np.asarray(U, dtype=np.float64) for U in m.Us]).dense()
+    if md.shape != exp.shape or not close(md, exp, 1e-9)[0]:
+        ctx.spec("model %s differs from the dense sum" % op, case)
